@@ -32,7 +32,7 @@ func finish(spec *Spec, tier string, seed int, obs []*Obligation, results map[st
 				continue
 			}
 			n++
-			rc := &ReplayCase{ID: fmt.Sprintf("c%d", n), Prop: spec.Property, Ob: o.Name, Pkg: o.Pkg, Entry: o.Entry, Kind: v.Kind, Msg: v.Msg, Site: v.Site, Vals: v.Nondets, Notes: v.Notes, Quick: tier != "thorough", Seed: uint64(seed)}
+			rc := &ReplayCase{ID: fmt.Sprintf("c%d", n), Prop: spec.Property, Ob: o.Name, Pkg: o.Pkg, Entry: o.Entry, Kind: v.Kind, Msg: v.Msg, Site: v.Site, Vals: v.Nondets, Notes: v.Notes, Quick: tier != "thorough", Seed: uint64(seed), Repl: o.Replace}
 			if o.Threads && v.Kind == "deadlock" {
 				rc.Repeat = 5000 // a reproduced deadlock blocks the replay until the test times out
 			}
@@ -46,7 +46,7 @@ func finish(spec *Spec, tier string, seed int, obs []*Obligation, results map[st
 				break
 			}
 			n++
-			cases = append(cases, &ReplayCase{ID: fmt.Sprintf("c%d", n), Prop: spec.Property, Ob: o.Name, Pkg: o.Pkg, Entry: o.Entry, Kind: "witness", Msg: "completed path", Vals: w, Quick: tier != "thorough", Seed: uint64(seed)})
+			cases = append(cases, &ReplayCase{ID: fmt.Sprintf("c%d", n), Prop: spec.Property, Ob: o.Name, Pkg: o.Pkg, Entry: o.Entry, Kind: "witness", Msg: "completed path", Vals: w, Quick: tier != "thorough", Seed: uint64(seed), Repl: o.Replace})
 		}
 	}
 	if !noReplay && len(cases) > 0 {
